@@ -33,7 +33,7 @@ each error.
 from __future__ import annotations
 __docformat__ = 'epytext en'
 
-from typing import Callable, ContextManager, List, Optional, Sequence, Iterator, TYPE_CHECKING
+from typing import Callable, ContextManager, Dict, List, Optional, Sequence, Iterator, TYPE_CHECKING
 import abc
 import sys
 import re
@@ -150,6 +150,7 @@ class ParsedDocstring(abc.ABC):
 
         self._stan: Optional[Tag] = None
         self._summary: Optional['ParsedDocstring'] = None
+        self._toc: Dict[int, Optional['ParsedDocstring']] = {}
 
     @abc.abstractproperty
     def has_body(self) -> bool:
@@ -164,6 +165,13 @@ class ParsedDocstring(abc.ABC):
         """
         The table of contents of the docstring if titles are defined or C{None}.
         """
+        # Building the table of contents gives new ids to its entries and makes the titles
+        # of the document refer to them: build it once, such that the titles and the entries agree.
+        if depth not in self._toc:
+            self._toc[depth] = self._build_toc(depth)
+        return self._toc[depth]
+
+    def _build_toc(self, depth: int) -> Optional['ParsedDocstring']:
         try:
             document = self.to_node()
             contents = build_table_of_content(document, depth=depth)
